@@ -73,3 +73,26 @@ def c09(tier, seed, only):
     chk.bounds = dict(stack_height=5, start_levels=[0, 1, 2], domains=2, propagators=2, domain="[a,b], a<b, unbounded (+-2^30); min_cost: within [0,W)")
     chk.assumptions.extend(HEUR_ASSUMPTIONS)
     return chk.finish({})
+
+
+@check("C12")
+def c12(tier, seed, only):
+    from nusym import h_split
+
+    chk = Check("C12", tier, seed)
+    batch = []
+    K = 8 if tier == "quick" else 12
+    for shape in h_split.SHAPES:
+        if only and shape not in only:
+            continue
+        r = chk.explore("split", dict(shape=shape, K=K), f"split/{shape}/k<={K}")
+        batch.extend(r.acc.validate)
+        chk.require(shape, any(k.startswith("parts:") for k in r.acc.counts) or any(k.startswith("violation") for k in r.acc.counts), "split never returned")
+    chk.functions.add("nucs.problems.problem.Problem.split")
+    chk.bounds = dict(k=f"1..{K} (symbolic)", domain="[a,b] with a<=b unbounded (+-2^30), other domain [c,d], offset in [-2,2]", shapes=list(h_split.SHAPES))
+    chk.assumptions += [
+        "number of variables/shared domains is concrete (1-3); the layouts are: own domain, second of two own domains, two variables sharing one domain with offsets, variable index different from its shared-domain index",
+        "'no two sub-problems share a solution and the union is the original solution set' is obtained by composition: the parts partition the split variable's domain (decided here) and each sub-problem is enumerated exactly (C02)",
+        "an empty part is reported only if the real solver cannot digest the sub-problem (replay with a watchdog)",
+    ]
+    return chk.finish({"split": batch})
